@@ -31,10 +31,11 @@ Theorem c02_gop_shape : forall (is_key : label -> Prop) max G c b,
 Proof. exact (gops_feed_shape label). Qed.
 Print Assumptions c02_gop_shape.
 
-(* the ring keeps representing the queue under every feed, for every ring size *)
-Theorem c02_ring_refines_queue : forall g G c b,
+(* the ring keeps representing the queue under every feed, for every ring
+   size; a sequence header with new content empties the queue (fix F-08ii) *)
+Theorem c02_ring_refines_queue : forall g G c b p,
   ring_inv label g G ->
-  ring_inv label (fst (gc_feed g c b)) (if Nat.ltb 1 (gc_size g) then gops_feed (gc_max g) G c b else G).
+  ring_inv label (fst (gc_feed g c b p)) (gops_after label g G c b p).
 Proof. exact (ring_inv_feed label). Qed.
 Print Assumptions c02_ring_refines_queue.
 
@@ -122,18 +123,32 @@ Lemma c02_header_while_waiting_refuted :
   mclass_of (amsg 175 0 2) = MAsh /\ out_of (cfg0 0) h 1 = Some [LT 0; LT 2; LT 3].
 Proof. vm_compute. split; reflexivity. Qed.
 
-(* F-08(ii): the cached GOP coded under the first header is replayed after the second one *)
-Lemma c02_stale_gop_refuted :
+(* F-08(ii), FIXED (lal): GOPs cached under the first sequence header are
+   dropped when a header with other content arrives; an identical header keeps them *)
+Lemma c02_stale_gop_dropped :
   let h := [EvInStart; EvPublish (vmsg 23 0 1); EvPublish (vmsg 23 1 2); EvPublish (vmsg 23 0 9);
             EvJoin KFlv 1; EvPublish (vmsg 39 1 3)] in
-  out_of (cfg0 1) h 1 = Some [LT 2; LT 1; LT 3].
+  out_of (cfg0 1) h 1 = Some [LT 2] /\
+  let h' := [EvInStart; EvPublish (vmsg 23 0 1); EvPublish (vmsg 23 1 2); EvPublish (vmsg 23 0 1);
+             EvJoin KFlv 1; EvPublish (vmsg 39 1 3)] in
+  out_of (cfg0 1) h' 1 = Some [LT 2; LT 1; LT 3].
+Proof. vm_compute. split; reflexivity. Qed.
+
+(* F-08(iii), FIXED (lal c48c20c): a TS consumer that stays attached across a
+   re-publish receives the new PAT/PMT before the new input's TS data *)
+Lemma c02_ts_patpmt_after_republish :
+  let h := [EvInStart; EvPatPmt; EvJoin KTs 1; EvTs true; EvInStop; EvInStart; EvPatPmt; EvTs true] in
+  out_of (cfg0 0) h 1 = Some [LPat 0; LTs 0; LPat 1; LTs 1].
 Proof. vm_compute. reflexivity. Qed.
 
-(* F-08(iii): a TS consumer that stays attached across a re-publish never gets the new PAT/PMT *)
-Lemma c02_ts_patpmt_refuted :
-  let h := [EvInStart; EvPatPmt; EvJoin KTs 1; EvTs true; EvInStop; EvInStart; EvPatPmt; EvTs true] in
-  out_of (cfg0 0) h 1 = Some [LPat 0; LTs 0; LTs 1].
-Proof. vm_compute. reflexivity. Qed.
+(* in general: OnPatPmt reaches every TS session that is past its prologue, and only those *)
+Theorem c02_patpmt_resent : forall cf s c,
+  In c (g_subs s) ->
+  In (if ckind_eqb (c_kind c) KTs && negb (c_fresh c) then c_append c [LPat (g_next_pat s)] else c)
+     (g_subs (step cf s EvPatPmt))
+  /\ g_patpmt (step cf s EvPatPmt) = Some (LPat (g_next_pat s)).
+Proof. intros cf s c Hin. cbn [step g_subs g_patpmt]. split; [|reflexivity]. now apply (in_map (fun c => if ckind_eqb (c_kind c) KTs && negb (c_fresh c) then c_append c [LPat (g_next_pat s)] else c)). Qed.
+Print Assumptions c02_patpmt_resent.
 
 (* F-27: joined before the video codec was known, stream starts with a non-key frame *)
 Lemma c02_first_frame_not_key_refuted :
